@@ -8,6 +8,15 @@ type PropertyDef struct {
 
 // Properties is the registry of E2 checks.
 var Properties = map[string]PropertyDef{
+	"C01": {Cases: C01Cases, Config: func(tier string) Config {
+		c := Config{
+			Functions: []string{"signing.NewCosigner", "Cosigner.Round1/Round2/Round3/ComputePartialSignature/computeEffectivePartialPublicKeys", "signing.NewAggregator/NewCosigningAggregator", "Aggregator.Aggregate", "hjky.Participant.Round1/Round2", "lindell22 dlogProve/dlogVerify (Fiat–Shamir Schnorr PoK)", "hashcom Commit/Open (real BLAKE2b over handles)", "schnorrlike.VerifierTrait.Verify", "feldman.Scheme.ConvertShareToAdditive/ConvertLiftedShareToAdditive", "kw/msp ReconstructionCoefficients", "przs.SampleZeroShare", "trusteddealer.Deal", "keygen.NewShard"},
+			Bounds:  map[string]any{"protocol": "Lindell22 with the vanilla (configurable) Schnorr variant, both response signs, Fiat–Shamir compiler, round-by-round API", "structures/quorums": "threshold, unanimity, CNF, hierarchical, non-ideal gate tree; minimal quorums and minimal+1 (≤3 quorums per structure in quick)", "shares, nonces, zero shares": "symbolic mod the real group order", "messages": "2 concrete messages"},
+			Assumes: []string{"random-oracle idealisation for transcript/commitment hashes (interned handles)", "fresh random draws are non-zero", "the measure-zero refusals the code itself documents are excluded: effective partial public key = identity (retry abort), aggregated s = 0 or R = identity (shown to be the only way an aggregator can refuse)"},
+			Outside: []string{"DKLs23 (OT over scalar bytes, x-coordinate of R), Lindell17 (Paillier), Boldyreva BLS (pairing), CGGMP21", "BIP-340 / Mina variants (parity of an affine coordinate)", "networked runner API", "real curves"},
+		}
+		return c
+	}},
 	"C04": {Cases: C04Cases, Config: func(tier string) Config {
 		c := Config{
 			Functions: []string{"gennaro.Participant.Round1/Round2/Round3 (consuming rounds under deviation)", "gennaro message Validate", "network.ValidateIncomingMessages", "pedersen.Scheme.Verify", "feldman.Scheme.Verify", "fiatshamir Verifier.Verify / zkmodule.Verify", "batch_schnorr / okamoto Verify", "base.GetMaliciousIdentities / ShouldAbort", "mpc.NewBaseShard"},
